@@ -26,6 +26,16 @@ CLAIMS = {
         "Exploration: ~1.9k (quick) / ~38k (thorough) oriented cases over all 21 oriented models plus ~800 isotropy cases over the un-oriented models; every clause of the statement is an executable predicate.",
         "Trusts numpy matrix algebra and the model's particle-frame functions; cutoff fixed at 0; un-oriented models that define their own Iqxy (line, micromagnetic_FF_3D: documented full-control mechanism) are outside the |q|-only clause; empty jitter meshes are left to C01.",
         "DESIGN.md section 3 C05"),
+    "C06": (
+        "Hypothesis-generated magnetic configurations per SLD-bearing model; oracle = per-detector-point recombination of non-magnetic 2-D calls with numpy-computed Halpern-Johnson effective SLDs and documented channel weights (reference model / differential)",
+        "Exploration: 47 magnetic-capable models x 30 (quick) / 650 (thorough) generated (M0, mtheta, mphi per SLD subset, up fractions incl. 0, 1/2, 1 and out-of-range, up angles, q directions, dispersity) cases at 1e-9; the Python-model refusal is a listed finding.",
+        "Assumes the non-magnetic 2-D path (decided by C01/C05); channel weights generated exactly 0 or far above the kernel's 1e-8 skip threshold.",
+        "DESIGN.md section 3 C06"),
+    "C07": (
+        "every (P,S) pair enumerated x Hypothesis-generated parameters/dispersity/modes/beta/dim; oracle = call_Fq(P) + call_kernel(S) recombined by the two documented formulas at 1e-12, and kernel.results() cross-checked against the quantities used",
+        "Exploration: 74 form factors x 4 structure factors x 12 (quick) / 120 (thorough) generated cases incl. volfraction-in-P, hollow P, P without Fq, vector-parameter P, magnetic P (2-D), dispersed user radius in mode 0; beta+2-D refusal is a listed finding.",
+        "Assumes P alone and S alone are evaluated correctly (C01); equal NaNs on both sides agree but are not counted as non-trivial.",
+        "DESIGN.md section 3 C07"),
     "C13": (
         "Hypothesis-generated parameter sets (model random() by drawn seed, defaults, coincidence-breaking perturbations) with metamorphic relations of known effect: lambda^3 / lambda / mu^2 scaling by declared unit exponents",
         "Exploration: every eligible shape:* model (42) x 40 (quick) / 800 (thorough) cases; relations on I, R_eff per mode, V_form, V_shell; three wrong unit labels repaired, five model-level deviations listed per (model, relation).",
